@@ -183,8 +183,17 @@ impl Compiler {
     pub fn compile_ast(&mut self, ast: &BlockStmt) -> Result<Bytecode, Error> {
         // Call compile_statement on each child node directly
         // We don't re-use compile_block_statement here because it exits the global scope
+        // A program that is rejected must leave nothing behind in a compiler that is kept
+        // (as the prompt does): no half-compiled code, no names it declared, no open loops.
+        let symbols_before = self.symbols.clone();
         for s in ast {
-            self.compile_statement(s)?;
+            if let Err(e) = self.compile_statement(s) {
+                self.instructions.clear();
+                self.loop_contexts.clear();
+                self.last_instruction = None;
+                self.symbols = symbols_before;
+                return Err(e);
+            }
         }
         self.emit_opcode(OpCode::Halt);
         self.instructions.shrink_to_fit();
